@@ -81,6 +81,46 @@ func checkC17(c *Ctx) {
 		}
 	}
 
+	// (2b) the same lookups in another order: what a position yields may not depend on what was looked up
+	// before (descending run, random jumps, immediate repeats)
+	judgePos := func(p int, how string) {
+		c.Eval(1)
+		m, err, pan := safeBaked(p)
+		idx, _ := oracle.BakedIndex(p)
+		ref := oracle.RefSigningRoot(idx)
+		if pan != nil || err != nil || m.MessageID != lines[p] || hex.EncodeToString(m.Payload) != hex.EncodeToString(ref[:]) {
+			c.Violate("C17/position-depends-on-lookup-history", fmt.Sprintf("position %d looked up %s: id=%q err=%v panic=%v, want id=%q", p, how, m.MessageID, err, pan, lines[p]), map[string]interface{}{"position": p, "order": how})
+		}
+	}
+	for p := len(lines) - 1; p >= 0; p -= 37 {
+		judgePos(p, "in a descending run")
+	}
+	{
+		r := c.Rng(1717)
+		last := 0
+		for i := 0; i < c.Pick(4000, 200000); i++ {
+			p := r.Intn(len(lines))
+			switch i % 5 {
+			case 1:
+				p = last // repeat
+			case 2:
+				p = (last + 1) % len(lines) // neighbour
+			}
+			judgePos(p, "after random other positions")
+			last = p
+		}
+		c.Distinct("order:descending")
+		c.Distinct("order:random")
+	}
+	// (2c) ... nor on being the first lookup of a process: fresh worker processes whose first baked lookup
+	// is a window that does not start at position 0 (a node or machine started for `sign_baked 100 500`)
+	saved := c.Seed
+	for k := 0; k < c.Pick(5, 20); k++ {
+		c.Seed = saved*100 + uint64(k)
+		c.RunPartInChild("c17first", "C17/first-lookup-of-a-process-crashes")
+	}
+	c.Seed = saved
+
 	// (3) random + boundary indices straight through GetSigningRoot
 	r := c.Rng(17)
 	idxs := []uint64{0, 1, 255, 256, 1<<32 - 1, 1 << 32, 1<<32 + 1, 1<<63 - 1, 1 << 63, 1<<64 - 1}
@@ -294,5 +334,51 @@ func c17ThroughTheAPI(c *Ctx, listLen int, progress func(string)) {
 				c.Add("out_of_list_windows_accepted_without_effect", 1)
 			}
 		}
+	}
+}
+
+// c17first: runs in a fresh process. The very first baked lookup of the process is a window that does not
+// start at position 0; then its neighbours, position 0, and the window again.
+func init() {
+	ChildParts["c17first"] = func(c *Ctx, progress func(string)) {
+		lines := oracle.RefLines()
+		starts := []int{1, 2, 100, len(lines) - 3, 12047}
+		k := int(c.Seed % 100)
+		var start int
+		if k < len(starts) {
+			start = starts[k]
+		} else {
+			start = 1 + c.Rng(171717).Intn(len(lines)-4)
+		}
+		check := func(p int, m requests.MessageToSign, how string) {
+			c.Eval(1)
+			idx, _ := oracle.BakedIndex(p)
+			ref := oracle.RefSigningRoot(idx)
+			if m.MessageID != lines[p] || hex.EncodeToString(m.Payload) != hex.EncodeToString(ref[:]) {
+				c.Violate("C17/position-depends-on-lookup-history", fmt.Sprintf("position %d looked up %s: id=%q, want id=%q (validator index %d)", p, how, m.MessageID, lines[p], idx), map[string]interface{}{"position": p, "order": how, "first_window_starts_at": start})
+			}
+		}
+		progress(fmt.Sprintf("first lookup of the process: window %d..%d", start, start+3))
+		msgs, err := requests.TasksToMessages([]requests.SigningTask{{MessageID: "first", RangeStart: start, RangeEnd: start + 3}})
+		if err != nil || len(msgs) != 3 {
+			c.Violate("C17/in-range-position-refused", fmt.Sprintf("window %d..%d as the first lookup of a process: %d messages, %v", start, start+3, len(msgs), err), map[string]interface{}{"start": start})
+			return
+		}
+		for i, m := range msgs {
+			check(start+i, m, "in the first window a fresh process expands")
+		}
+		for _, p := range []int{start + 3, start - 1, 0, start} {
+			if p < 0 || p >= len(lines) {
+				continue
+			}
+			progress(fmt.Sprintf("then position %d", p))
+			if m, err, pan := safeBaked(p); err == nil && pan == nil {
+				check(p, m, "after the first window")
+			} else {
+				c.Violate("C17/in-range-position-refused", fmt.Sprintf("position %d: %v %v", p, err, pan), map[string]interface{}{"position": p})
+			}
+		}
+		c.Distinct(fmt.Sprintf("fresh-process-first-window|%d", start))
+		c.Add("fresh_processes_whose_first_lookup_is_not_position_0", 1)
 	}
 }
